@@ -66,6 +66,7 @@ INVALID = [
     ("copy-struct", "struct S\n{{\n\tm: {t},\n}}\nfn main() -> u8\n{{\n\tvar s = S {{ m: 2 }};\n\tvar r = S {{ m: 3 }};\n\tr = s;\n\treturn: 0\n}}\n", "533"),
     ("missing-address-pointer", "fn bump(q: &{t})\n{{\n\tq = q + 1;\n}}\nfn main() -> u8\n{{\n\tvar v: {t} = 1;\n\tbump(v);\n\treturn: 0\n}}\n", "513"),
     ("missing-address-slice-pointer", "fn fill(p: &[]{t})\n{{\n\tp[0] = 1;\n}}\nfn main() -> u8\n{{\n\tvar a: [2]{t} = [1, 2];\n\tfill(a);\n\treturn: 0\n}}\n", "513"),
+    ("missing-address-forwarded-slice-pointer", "fn fill(data: &[]{t})\n{{\n\tdata[0] = 99;\n}}\nfn relay(data: &[]{t})\n{{\n\tfill(data);\n}}\nfn main() -> u8\n{{\n\tvar a: [3]{t} = [1, 2, 3];\n\trelay(&a);\n\treturn: 0\n}}\n", "513"),
     ("missing-address-extern-pointer", "extern fn bump(q: &{t});\nfn main() -> u8\n{{\n\tvar v: {t} = 1;\n\tbump(v);\n\treturn: 0\n}}\n", "513"),
     ("missing-address-extern-slice-pointer", "extern fn fill(p: &[]{t});\nfn main() -> u8\n{{\n\tvar a: [2]{t} = [1, 2];\n\tfill(a);\n\treturn: 0\n}}\n", "513"),
     ("missing-address-extern-defined", "extern fn fill(p: &[]{t})\n{{\n\tp[0] = 7;\n}}\nfn main() -> u8\n{{\n\tvar a: [2]{t} = [1, 2];\n\tfill(a);\n\treturn: 0\n}}\n", "513"),
@@ -127,6 +128,9 @@ def run(tier):
     bad = 0; stats = collections.Counter()
     for cid, src, (kind, exp) in cases:
         f = impl.get(cid, ["missing"])
+        if cid.startswith("inv:missing-address-forwarded-slice-pointer:") and "typer.rs:2958" in f[0]:
+            # the typer's `fully_dereferenced` panic on a forwarded slice pointer (C02's listed D11): not accepted
+            stats["invalid:not-accepted(D11 panic)"] += 1; continue
         if not (f[0].startswith("ok") or f[0].startswith("err codes=")):
             ck.violation(C.failure_key(f[0]), "compiler failed on %s: %s" % (cid, f[0][:160]), src); continue
         if kind == "invalid":
